@@ -398,7 +398,7 @@ fn pre_op(op: &Value, dir: &str, cas: &[CaServer], ctl: &str) -> Result<Value, S
 }
 
 fn start_ctl(stop: Arc<AtomicBool>) -> (String, u16) {
-	let listener = TcpListener::bind("127.0.0.1:0").unwrap();
+	let listener = super::bind_local();
 	let port = listener.local_addr().unwrap().port();
 	std::thread::spawn(move || {
 		for stream in listener.incoming() {
